@@ -21,16 +21,14 @@
 (* once when it creates it and, at the top level of a program, a second     *)
 (* time after constant folding (Code::parse: create, then recreate); names  *)
 (* are registered with what is known after folding.  This judgement has no  *)
-(* folding pass.  The relation is                                            *)
+(* folding pass.  The relation (decided by Trace_Static.tla) is              *)
 (*                                                                           *)
-(*     accepted by both  =>  Matches(type of the implementation, TypeOf)    *)
-(*                                                                           *)
-(* (the implementation is at least as precise), equality whenever none of   *)
-(* the named differences below is involved, and                              *)
-(*                                                                           *)
-(*     accepted by the implementation  <=>  accepted here                    *)
-(*                                                                           *)
-(* for programs whose acceptance does not hinge on a named difference.      *)
+(*   program not FoldSensitive:  same verdict, and if accepted EQUAL types;  *)
+(*   program FoldSensitive:      accepted here => accepted by the            *)
+(*                               implementation (or a folding error, D4),    *)
+(*                               accepted by both => Matches(type of the     *)
+(*                               implementation, TypeOf): the implementation *)
+(*                               is at least as precise, never wider.        *)
 (*                                                                           *)
 (* NAMED DIFFERENCES (the judgement is wider, never narrower):               *)
 (*  D1 if-folding      `if <constant condition>' keeps one branch after     *)
@@ -55,6 +53,15 @@
 (*                     (a `break' nested in e is accepted); transcribed.     *)
 (*  D7 dropped constants  a bare constant in non-last statement position is *)
 (*                     dropped by the parser; no effect on typing.           *)
+(*  D8 `f := <function literal>'  in the concrete syntax this IS a function *)
+(*                     declaration: the text of Set(f, FnE(..)) and of       *)
+(*                     FnDecl(f, ..) is the same, so the implementation lets *)
+(*                     the body refer to f (recursion).  The AST keeps the   *)
+(*                     two apart and Lang.tla evaluates the former as an     *)
+(*                     anonymous closure bound afterwards; this judgement    *)
+(*                     follows Lang.tla.  The verdicts can differ only when  *)
+(*                     the literal's body mentions the name being bound      *)
+(*                     (SelfNamedLiteral(prog) below): counted apart.        *)
 (* D1, D2 and D5 are the only ones that make the two types (or verdicts)    *)
 (* differ.  FoldSensitive(prog) below over-approximates the programs in     *)
 (* which they can occur (an `if' whose condition, or an index expression    *)
@@ -127,6 +134,7 @@ AsgType(op, lt, rt) ==
   ELSE IF IsNone(ve) THEN Rej("CannotDo2")
   ELSE IF op = "=" THEN (IF CanStore(lt, rt) THEN rt ELSE Rej("CannotDo2"))
   ELSE LET bop == SubSeq(op, 1, Len(op) - 1)
+           \* (bin_op.rs `return_type': the array branch cannot be reached, no array passes BinOk of - * / ...)
            res == IF bop = "+" THEN AddType(ve, rt)
                   ELSE IF Matches(Arr(TNever), ve) THEN ve ELSE rt
        IN IF BinOk(bop, ve, rt) /\ CanStore(lt, res) THEN ve ELSE Rej("CannotDo2")
@@ -391,6 +399,37 @@ TypeProg(prog) == TypeStmts(prog, Cx(InitTEnv, NoneV, FALSE))
 Accepts(prog) == ~IsRej(TypeProg(prog))
 
 (***************************************************************************)
+(* All expression nodes of an accepted program with the context each is     *)
+(* typed in (for laws that speak about every node), and the honesty of the  *)
+(* two AST fields that restate static facts for the evaluator of Lang.tla:   *)
+(* the cell type of the untyped `mut e' (must be TypeOf(e)) and the element  *)
+(* kind of `$+' / `$*' (which zero the fold starts from).  The generator's  *)
+(* near-miss programs keep the annotations of the well-typed original, so   *)
+(* the dynamic laws are stated for honest programs only.                     *)
+(***************************************************************************)
+RECURSIVE NodesOf(_, _), NodesOfKids(_, _), NodesOfStmts(_, _)
+NodesOfKids(ks, i) == IF i > Len(ks) THEN <<>> ELSE NodesOf(ks[i].e, ks[i].cx) \o NodesOfKids(ks, i + 1)
+NodesOf(e, cx) ==
+  <<Kid(e, cx)>>
+  \o NodesOfKids(Kids(e, cx), 1)
+  \o NodesOfKids(Kids2(e, cx, TypeKids(Kids(e, cx))), 1)
+  \o (IF OwnsBody(e) THEN NodesOfStmts(e.body, BodyCx(e, cx)) ELSE <<>>)
+NodesOfStmts(ss, cx) ==
+  IF ss = <<>> THEN <<>>
+  ELSE NodesOf(Target(Head(ss)), StmtCx(Head(ss), cx))
+       \o (IF IsRej(TypeStmts(<<Head(ss)>>, cx)) THEN <<>>
+           ELSE NodesOfStmts(Tail(ss), [cx EXCEPT !.env = TypeStmts(<<Head(ss)>>, cx).env]))
+NodesOfProg(prog) == NodesOfStmts(prog, Cx(InitTEnv, NoneV, FALSE))
+
+HonestNode(n) ==
+  CASE n.e.k = "mut" /\ "u" \in DOMAIN n.e -> Unwire(n.e.ty) = TypeOf(n.e.e, n.cx)
+    [] n.e.k = "red" /\ n.e.op \in {"$+", "$*"} ->
+         LET t == TypeOf(n.e, n.cx) IN
+         (t = TInt => n.e.ek = "int") /\ (t = TFloat => n.e.ek = "float") /\ (t = TString => n.e.ek = "string")
+    [] OTHER -> TRUE
+HonestAnnotations(prog) == LET ns == NodesOfProg(prog) IN \A i \in 1..Len(ns) : HonestNode(ns[i])
+
+(***************************************************************************)
 (* Sensitivity to constant folding (named differences D1, D2, D5).          *)
 (* ConstE(e, K): e may fold to a constant when the names in K are bound to   *)
 (* constants (what recreate / create_from_instructions fold: literals,       *)
@@ -435,6 +474,28 @@ SensStmts(ss, K) ==
          [] s.k = "fndecl" -> SensStmts(Tail(ss), K \ {s.n})
          [] OTHER -> SensE(s, K) \/ SensStmts(Tail(ss), K)
 FoldSensitive(prog) == SensStmts(prog, {})
+
+(***************************************************************************)
+(* Named difference D8: a `set' of a function literal whose body mentions    *)
+(* the name being bound (syntactic, shadowing ignored: an over-approximation). *)
+(***************************************************************************)
+NoCx == Cx(<<>>, NoneV, FALSE)
+RECURSIVE Mentions(_, _), MentionsStmts(_, _), SelfNamedE(_), SelfNamedStmts(_)
+Mentions(e, n) ==
+  \/ e.k = "var" /\ e.n = n
+  \/ \E i \in 1..Len(Kids(e, NoCx)) : Mentions(Kids(e, NoCx)[i].e, n)
+  \/ e.k = "for" /\ Mentions(e.b, n)
+  \/ OwnsBody(e) /\ MentionsStmts(e.body, n)
+MentionsStmts(ss, n) == \E i \in 1..Len(ss) : Mentions(Target(ss[i]), n)
+SelfNamedE(e) ==
+  \/ \E i \in 1..Len(Kids(e, NoCx)) : SelfNamedE(Kids(e, NoCx)[i].e)
+  \/ e.k = "for" /\ SelfNamedE(e.b)
+  \/ OwnsBody(e) /\ SelfNamedStmts(e.body)
+SelfNamedStmts(ss) ==
+  \E i \in 1..Len(ss) :
+     \/ ss[i].k = "set" /\ ss[i].e.k = "fn" /\ MentionsStmts(ss[i].e.body, ss[i].n)
+     \/ SelfNamedE(Target(ss[i]))
+SelfNamedLiteral(prog) == SelfNamedStmts(prog)
 
 \* type in Types.tla form -> wire form (unions as sequences, structs as sorted pair lists), for reports
 RECURSIVE Wire(_)
